@@ -10,10 +10,11 @@
    (2) the instances: the model builders of Transport, Storage (one or two variables per step, charging efficiency, in / out /
        holding costs, inflow, start / end level, two nodes) and SimpleContract (one variable per step, or the in/out split with a
        non-negative spread) on a fine grid realise the textbook transport / storage / contract (C02_transport_unit,
-       C02_storage_unit, C02_contract_unit), so (1) applies to every portfolio built from them;
+       C02_storage_unit, C02_contract_unit), and so does Contract = SimpleContract + min / max take rows
+       (C02_contract_takes_unit), so (1) applies to every portfolio built from them;
    (3) the building blocks used above and for the classes not covered by (2): in/out split, limits = rate x step length,
        transport flows, level recursion, holding cost by Abel summation, take prorating, portfolio = direct sum + nodal rows.
-   NOT PROVED (hence still "partial"): instances for Contract with min/max take rows, MultiCommodityContract, ExtendedTransport,
+   NOT PROVED (hence still "partial"): instances for MultiCommodityContract, ExtendedTransport,
    coarse / periodic asset grids and the binary options of the storage; the discount factor itself (an irrational power: the
    builders receive it as data, the oracle compares it); and everything rests on the correspondence of the model builders with
    assets.py.  For those classes the composition is decided per instance by the check: the independent formulation
@@ -156,6 +157,22 @@ Theorem C02_contract_unit :
           u_tb := tb_contract rg (cp_node p) (pick 0 match cp_price p with Some v => v | None => repeat 0 (g_T g) end (rg_I rg)) ec minc maxc |}.
 Proof. exact contract_unit_ok. Qed.
 Print Assumptions C02_contract_unit.
+
+(* Contract = SimpleContract + max / min take rows: the textbook contract with, for every take period that has a step inside the
+   asset's grid, the volume of those steps bounded by the right-hand side of the emitted row (the prorated value, C02_take_prorated) *)
+Theorem C02_contract_takes_unit :
+  forall g rg p a maxc minc ec, simple_contract g rg p = Some a -> rg_minor rg = None ->
+  mkvec rg (cp_max p) None true = Some maxc -> mkvec rg (cp_min p) None true = Some minc ->
+  mkvec rg (cp_extra p) (Some 0) false = Some ec ->
+  List.length maxc = rg_T rg -> List.length minc = rg_T rg -> List.length ec = rg_T rg -> List.length (rg_disc rg) = rg_T rg ->
+  (forall t, (t < rg_T rg)%nat -> 0 <= nth t ec 0) -> (forall t, (t < rg_T rg)%nat -> 0 <= nth t (rg_disc rg) 0) ->
+  forall mx mn : list take,
+  u_ok {| u_name := cp_name p;
+          u_prob := {| ap_lp := add_rows (ap_lp a) (take_all_rows g rg a mx mn); ap_map := ap_map a |};
+          u_dec := if all_b eq0 ec || all_b le0 maxc || all_b ge0 minc then fun x => x else dec_split (rg_T rg);
+          u_tb := tb_contract_takes g rg p a maxc minc ec mx mn |}.
+Proof. exact contract_takes_unit_ok. Qed.
+Print Assumptions C02_contract_takes_unit.
 
 (* the boolean test the check evaluates on every generated portfolio (RefCorr.unit_hyps, names distinct) is enough for the
    composition theorems to apply to the model of that portfolio *)
